@@ -73,6 +73,12 @@ CLAIMED = {
         text="Thousands of generated document tuples (elements, bare and {text=} text nodes, attributes and text full of markup-significant and whitespace characters, default/prefixed namespaces incl. shadowing, NULL attrs/children, declaration fields in any order) are written by the real xml converter and parsed by expat; resolved names, attributes, in-force namespace bindings, child order and text must match; every malformed-document kind must be an error; a sample goes through std/xml.ucg and `out xml` with the CLI. All differences of a document are reported, so a listed dependency defect cannot hide a new one.",
         note="Trusted: expat; my reading of the DSL in reference/converters.md. Whitespace-only text segments are ignored on both sides because the writer indents; XML-illegal characters are not generated.",
         design="DESIGN.md section 4, C12"),
+    "C13": dict(
+        engine="cli",
+        technique="runtime monitor: offline history checker over the merged output of real `ucg test` runs (unique assertion ids: exactly-once per file section, verdict vs by-construction truth, exit status) over all permutations of the file list",
+        text="Generated test files with true, false, malformed and computed assertions and with build errors at random places are run through the real `ucg test`, alone, in every permutation of up to 4 files in one invocation, and with -r; because every assertion description is a unique id the log is an unambiguous history: each id exactly once, in its own file's section, with the right outcome; PASS exactly when the file builds and every assertion holds; non-zero exit exactly when some file fails.",
+        note="Trusted: the generator's truth table; sectioning of the merged stream by `Validating <file>` lines.",
+        design="DESIGN.md section 4, C13"),
     "C14": dict(
         engine="cli",
         technique="runtime monitor: directory-snapshot history checker around the real `ucg build` (sha256 before/after) + byte differential against the `convert` expression; fault sequences good/bad/good",
